@@ -2,10 +2,789 @@
 
 package main
 
+import (
+	"bytes"
+	"context"
+	"fmt"
+	"io"
+	"sort"
+	"strings"
+	"time"
+	"unsafe"
+
+	"mvdan.cc/sh/v3/expand"
+	"mvdan.cc/sh/v3/interp"
+	"mvdan.cc/sh/v3/syntax"
+)
+
+// C29 — Running a program leaves the tree and Env untouched.
+//
+// Correspondence streams (model op lines, answered by the real code)
+//   chain    free-form overlayEnviron chains through the hook (VerifC29Overlay / VerifC29NewOverlay):
+//            Set / Get / Each answers and the Sets received by a recording root Environ
+//   run      Runner-level: generated nests of function calls, ( ), `&`, handler calls and
+//            assignments run as a real program; at every `__snap` the overlay chain's shape and the
+//            variables seen through HandlerContext.Env; at the end the Sets the root received
+//   specenv  the specification on the same programs: the root Environ received no Set
+//   sb       expand.FieldsSeq's header copy + syntax.SplitBraces on generated words whose Parts
+//            slice has spare capacity: result structure and "original header and array unchanged"
+//   alias    the alias splice loop of Runner.cmd: final argument list
+//   hdoc     the <<- line splitter of Runner.hdocString: output text
+//   selftest sensitivity of the snapshot detector used by the search leg
+// Search leg (c29_search.go): the property itself on generated programs.
 func init() { register("C29", c29) }
 
 func c29(c *Ctx) {
-	c.Rule = "a search case is non-trivial when the program produced output"
+	c.Rule = "tie cases: non-trivial when a Set was forwarded / a brace was split / an alias was spliced / a line was flushed; search cases: the program produced output"
 	n := c.N
-	c29Search(c, n)
+	c29SelfTest(c)
+	r := c.R.Fork("tie")
+	for i := 0; i < n; i++ {
+		switch i % 5 {
+		case 0:
+			c29ChainCase(c, r)
+		case 1:
+			c29RunCase(c, r)
+		case 2:
+			c29SBCase(c, r)
+		case 3:
+			c29AliasCase(c, r)
+		default:
+			c29HdocCase(c, r)
+		}
+	}
+	sn := n / 4
+	if c.Thorough() {
+		sn = n / 8
+	}
+	if n == 0 {
+		sn = 0
+	}
+	c29Search(c, sn)
+}
+
+// ---- recording root --------------------------------------------------------------------------
+
+type c29Root struct {
+	names []string
+	vars  map[string]expand.Variable
+	sets  []string
+}
+
+func (e *c29Root) Get(name string) expand.Variable { return e.vars[name] }
+func (e *c29Root) Each(f func(string, expand.Variable) bool) {
+	for _, n := range e.names {
+		if !f(n, e.vars[n]) {
+			return
+		}
+	}
+}
+
+type c29WRoot struct{ *c29Root }
+
+func (e c29WRoot) Set(name string, vr expand.Variable) error {
+	e.sets = append(e.sets, name)
+	return nil
+}
+
+func c29ShowVar(v expand.Variable) string {
+	val := v.Str
+	return fmt.Sprintf("v%s%s%s%sk%d:%s", b01(v.Set), b01(v.Local), b01(v.Exported), b01(v.ReadOnly), int(v.Kind), hx(val))
+}
+
+func b01(b bool) string {
+	if b {
+		return "1"
+	}
+	return "0"
+}
+
+type c29VarSpec struct {
+	name                           string
+	set, loc, exported, readOnly bool
+	kind                           int
+	val                            string
+}
+
+func (v c29VarSpec) tok() string {
+	return fmt.Sprintf("%s:%s%s%s%s:%d:%s", hx(v.name), b01(v.set), b01(v.loc), b01(v.exported), b01(v.readOnly), v.kind, hx(v.val))
+}
+
+func (v c29VarSpec) variable() expand.Variable {
+	return expand.Variable{Set: v.set, Local: v.loc, Exported: v.exported, ReadOnly: v.readOnly, Kind: expand.ValueKind(v.kind), Str: v.val}
+}
+
+func c29RootTok(root *c29Root) string {
+	hs := make([]string, len(root.sets))
+	for i, s := range root.sets {
+		hs[i] = hx(s)
+	}
+	return "root=" + strings.Join(hs, ",")
+}
+
+var c29VarNames = []string{"a", "b", "E0", "E1"}
+
+func c29GenVar(r *Rand) c29VarSpec {
+	v := c29VarSpec{name: r.Pick(c29VarNames)}
+	switch r.Intn(10) {
+	case 0: // unset
+	case 1: // attribute change
+		v.kind = 5
+		v.exported = r.Bool()
+		v.readOnly = r.Chance(30)
+		v.loc = r.Chance(30)
+	default:
+		v.set = true
+		v.kind = 1
+		v.val = r.Pick([]string{"", "x", "yy", "z z"})
+		v.loc = r.Chance(35)
+		v.exported = r.Chance(20)
+		v.readOnly = r.Chance(10)
+	}
+	return v
+}
+
+// ---- chain ---------------------------------------------------------------------------------------
+
+func c29ChainCase(c *Ctx, r *Rand) {
+	rw := r.Chance(70)
+	root := &c29Root{vars: map[string]expand.Variable{}}
+	var toks []string
+	for _, n := range []string{"E0", "E1"} {
+		if r.Chance(80) {
+			v := c29VarSpec{name: n, set: true, exported: true, kind: 1, val: "e" + n, readOnly: n == "E1" && r.Bool()}
+			root.names = append(root.names, n)
+			root.vars[n] = v.variable()
+			toks = append(toks, "B:"+v.tok())
+		}
+	}
+	var rootEnv expand.Environ = root
+	if rw {
+		rootEnv = c29WRoot{root}
+	}
+	var ovs []expand.WriteEnviron
+	var answers []string
+	forwarded := false
+	panicked := false
+	parentOf := func(p string) expand.Environ {
+		switch p {
+		case "n":
+			return nil
+		case "b":
+			return rootEnv
+		}
+		var i int
+		fmt.Sscan(p, &i)
+		return ovs[i]
+	}
+	pickParent := func(allowNil bool) string {
+		k := r.Intn(10)
+		switch {
+		case k == 0 && allowNil:
+			return "n"
+		case k < 4 || len(ovs) == 0:
+			return "b"
+		default:
+			return fmt.Sprint(r.Intn(len(ovs)))
+		}
+	}
+	nops := 3 + r.Intn(12)
+	for i := 0; i < nops && !panicked; i++ {
+		k := r.Intn(10)
+		if len(ovs) == 0 {
+			k = 0
+		}
+		switch {
+		case k < 2:
+			p := pickParent(true)
+			fs := r.Chance(45)
+			toks = append(toks, fmt.Sprintf("mk:%s:%s", p, b01(fs)))
+			ovs = append(ovs, interp.VerifC29Overlay(parentOf(p), fs))
+			answers = append(answers, fmt.Sprintf("#%d", len(ovs)-1))
+		case k == 2:
+			p := pickParent(false)
+			toks = append(toks, "bg:"+p)
+			var o expand.WriteEnviron
+			if pn := safely(func() { o = interp.VerifC29NewOverlay(parentOf(p), true) }); pn != "" {
+				answers = append(answers, "panic")
+				panicked = true
+				break
+			}
+			ovs = append(ovs, o)
+			answers = append(answers, fmt.Sprintf("#%d", len(ovs)-1))
+		case k < 7:
+			o := r.Intn(len(ovs))
+			v := c29GenVar(r)
+			toks = append(toks, fmt.Sprintf("set:%d:%s", o, v.tok()))
+			before := len(root.sets)
+			var err error
+			if pn := safely(func() { err = ovs[o].Set(v.name, v.variable()) }); pn != "" {
+				answers = append(answers, "panic")
+				panicked = true
+				forwarded = true
+				break
+			}
+			if len(root.sets) > before {
+				forwarded = true
+			}
+			if err != nil {
+				answers = append(answers, "err")
+			} else {
+				answers = append(answers, "ok")
+			}
+		case k < 9:
+			o := r.Intn(len(ovs))
+			n := r.Pick(c29VarNames)
+			toks = append(toks, fmt.Sprintf("get:%d:%s", o, hx(n)))
+			answers = append(answers, c29ShowVar(ovs[o].Get(n)))
+		default:
+			o := r.Intn(len(ovs))
+			toks = append(toks, fmt.Sprintf("each:%d", o))
+			var items []string
+			ovs[o].Each(func(n string, v expand.Variable) bool {
+				items = append(items, hx(n)+"="+c29ShowVar(v))
+				return true
+			})
+			sort.Strings(items)
+			answers = append(answers, "["+strings.Join(items, ",")+"]")
+		}
+	}
+	if !panicked {
+		answers = append(answers, c29RootTok(root))
+	}
+	line := "chain " + b01(rw) + " " + strings.Join(toks, " ")
+	c.Op(line, strings.Join(answers, " "))
+	tags := []string{"tie:chain"}
+	if forwarded {
+		tags = append(tags, "chain:root-reached")
+	}
+	if panicked {
+		tags = append(tags, "chain:assert-panic")
+	}
+	c.Case(line, forwarded || len(root.sets) > 0 || panicked, tags...)
+}
+
+// ---- run: Runner-level nests ---------------------------------------------------------------------
+
+type c29Node struct {
+	kind string // assign local export unset readonly hset snap call sub0 sub1
+	name string
+	val  string
+	body []*c29Node
+}
+
+func c29GenNest(r *Rand, depth int, inFunc bool, budget *int) []*c29Node {
+	var out []*c29Node
+	n := 1 + r.Intn(4)
+	for i := 0; i < n && *budget > 0; i++ {
+		*budget--
+		k := r.Intn(20)
+		name := r.Pick(c29VarNames)
+		val := r.Pick([]string{"x", "yy", "q"})
+		switch {
+		case k < 4:
+			out = append(out, &c29Node{kind: "assign", name: name, val: val})
+		case k < 7:
+			out = append(out, &c29Node{kind: "local", name: name, val: val})
+		case k == 7:
+			out = append(out, &c29Node{kind: "export", name: name})
+		case k == 8:
+			out = append(out, &c29Node{kind: "unset", name: name})
+		case k == 9:
+			out = append(out, &c29Node{kind: "readonly", name: r.Pick([]string{"a", "b"}), val: val})
+		case k == 10:
+			out = append(out, &c29Node{kind: "hset", name: name, val: val})
+		case k < 14:
+			out = append(out, &c29Node{kind: "snap"})
+		case k < 17 && depth < 4:
+			out = append(out, &c29Node{kind: "call", body: c29GenNest(r, depth+1, true, budget)})
+		case k < 19 && depth < 4:
+			out = append(out, &c29Node{kind: "sub0", body: c29GenNest(r, depth+1, false, budget)})
+		case depth < 4:
+			out = append(out, &c29Node{kind: "sub1", body: c29GenNest(r, depth+1, false, budget)})
+		}
+	}
+	out = append(out, &c29Node{kind: "snap"})
+	return out
+}
+
+var c29SnapNames = "a,b,E0,E1"
+
+func c29SnapTok() string {
+	var hs []string
+	for _, n := range strings.Split(c29SnapNames, ",") {
+		hs = append(hs, hx(n))
+	}
+	return "snap:" + strings.Join(hs, ",")
+}
+
+// c29NestSrc renders the nest as a shell program and as model tokens.
+func c29NestSrc(nodes []*c29Node, nfunc *int, src *strings.Builder, toks *[]string) {
+	for _, nd := range nodes {
+		switch nd.kind {
+		case "assign":
+			fmt.Fprintf(src, "%s=%s\n", nd.name, nd.val)
+			*toks = append(*toks, fmt.Sprintf("assign:%s:%s", hx(nd.name), hx(nd.val)))
+		case "local":
+			fmt.Fprintf(src, "local %s=%s\n", nd.name, nd.val)
+			*toks = append(*toks, fmt.Sprintf("local:%s:%s", hx(nd.name), hx(nd.val)))
+		case "readonly":
+			fmt.Fprintf(src, "readonly %s=%s\n", nd.name, nd.val)
+			*toks = append(*toks, fmt.Sprintf("readonly:%s:%s", hx(nd.name), hx(nd.val)))
+		case "export":
+			fmt.Fprintf(src, "export %s\n", nd.name)
+			*toks = append(*toks, "export:"+hx(nd.name))
+		case "unset":
+			fmt.Fprintf(src, "unset %s\n", nd.name)
+			*toks = append(*toks, "unset:"+hx(nd.name))
+		case "hset":
+			fmt.Fprintf(src, "__hset %s %s\n", nd.name, nd.val)
+			*toks = append(*toks, fmt.Sprintf("hset:%s:%s", hx(nd.name), hx(nd.val)))
+		case "snap":
+			src.WriteString("__snap\n")
+			*toks = append(*toks, c29SnapTok())
+		case "call":
+			*nfunc++
+			fn := fmt.Sprintf("fn%d", *nfunc)
+			fmt.Fprintf(src, "%s() {\n", fn)
+			*toks = append(*toks, "call")
+			c29NestSrc(nd.body, nfunc, src, toks)
+			fmt.Fprintf(src, "}\n%s\n", fn)
+			*toks = append(*toks, "ret")
+		case "sub0":
+			src.WriteString("(\n")
+			*toks = append(*toks, "sub0")
+			c29NestSrc(nd.body, nfunc, src, toks)
+			src.WriteString(")\n")
+			*toks = append(*toks, "end")
+		case "sub1":
+			src.WriteString("{\n")
+			*toks = append(*toks, "sub1")
+			c29NestSrc(nd.body, nfunc, src, toks)
+			src.WriteString("} &\nwait\n")
+			*toks = append(*toks, "end")
+		}
+	}
+}
+
+func c29RunCase(c *Ctx, r *Rand) {
+	rw := r.Chance(70)
+	root := &c29Root{vars: map[string]expand.Variable{}}
+	var toks []string
+	for _, n := range []string{"E0", "E1"} {
+		if r.Chance(85) {
+			v := c29VarSpec{name: n, set: true, exported: true, kind: 1, val: "e" + n, readOnly: n == "E1" && r.Chance(30)}
+			root.names = append(root.names, n)
+			root.vars[n] = v.variable()
+			toks = append(toks, "B:"+v.tok())
+		}
+	}
+	// HOME and TMPDIR are looked up by Reset; give them so that nothing else is written
+	var rootEnv expand.Environ = root
+	if rw {
+		rootEnv = c29WRoot{root}
+	}
+	budget := 14
+	nest := c29GenNest(r, 0, false, &budget)
+	var src strings.Builder
+	nfunc := 0
+	c29NestSrc(nest, &nfunc, &src, &toks)
+
+	file, err := syntax.NewParser().Parse(strings.NewReader(src.String()), "")
+	if err != nil {
+		panic("c29 run: generated program does not parse: " + err.Error() + "\n" + src.String())
+	}
+	var answers []string
+	mw := func(next interp.ExecHandlerFunc) interp.ExecHandlerFunc {
+		return func(ctx context.Context, args []string) error {
+			hc := interp.HandlerCtx(ctx)
+			switch args[0] {
+			case "__snap":
+				fs, end := interp.VerifC29Chain(hc.Env)
+				var sb strings.Builder
+				sb.WriteString("chain=")
+				for _, f := range fs {
+					sb.WriteString(b01(f))
+				}
+				sb.WriteString("/" + end)
+				answers = append(answers, sb.String())
+				for _, n := range strings.Split(c29SnapNames, ",") {
+					answers = append(answers, hx(n)+"="+c29ShowVar(hc.Env.Get(n)))
+				}
+				return nil
+			case "__hset":
+				if we, ok := hc.Env.(expand.WriteEnviron); ok {
+					we.Set(args[1], expand.Variable{Set: true, Kind: expand.String, Str: args[2]})
+				}
+				return nil
+			}
+			return interp.ExitStatus(127)
+		}
+	}
+	dir := scratchDir(c)
+	runner, err := interp.New(interp.StdIO(nil, io.Discard, io.Discard), interp.Dir(dir), interp.Env(rootEnv), interp.ExecHandlers(mw))
+	if err != nil {
+		panic(err)
+	}
+	ctx, cancel := context.WithTimeout(context.Background(), 10*time.Second)
+	defer cancel()
+	pn := safely(func() { runner.Run(ctx, file) })
+	if ctx.Err() != nil {
+		c.Case("", false, "tie:run-timeout")
+		return
+	}
+	if pn != "" {
+		answers = append(answers, "panic")
+	} else {
+		answers = append(answers, c29RootTok(root))
+	}
+	line := "run " + b01(rw) + " " + strings.Join(toks, " ")
+	c.Op(line, strings.Join(answers, " "))
+	// the specification itself: whatever the program did, the root received no Set
+	if pn == "" {
+		c.Op("specenv "+b01(rw)+" "+strings.Join(toks, " "), c29RootTok(root))
+	}
+	depth := strings.Count(src.String(), "() {") + strings.Count(src.String(), "(\n") + strings.Count(src.String(), "} &")
+	c.Case(line, depth > 0, "tie:run", fmt.Sprintf("run:nests<%d", bucket(depth)))
+}
+
+// ---- sb: FieldsSeq copy + SplitBraces -------------------------------------------------------------
+
+var c29LitAlphabet = []string{"{", "}", ",", "..", ".", "\\", "a", "b", "1", "2", "10", "-", "+", "x", "{a,b}", "{1..3}", "{a..c}", "0"}
+
+func c29RenderWord(w *syntax.Word, others map[syntax.WordPart]int) string {
+	var parts []string
+	for _, p := range w.Parts {
+		switch p := p.(type) {
+		case *syntax.Lit:
+			parts = append(parts, "l"+hx(p.Value))
+		case *syntax.BraceExp:
+			var es []string
+			for _, e := range p.Elems {
+				es = append(es, c29RenderWord(e, others))
+			}
+			parts = append(parts, "B"+b01(p.Sequence)+"["+strings.Join(es, ";")+"]")
+		case nil:
+			parts = append(parts, "nil")
+		default:
+			parts = append(parts, fmt.Sprintf("o%d", others[p]))
+		}
+	}
+	return "(" + strings.Join(parts, ",") + ")"
+}
+
+func c29SBCase(c *Ctx, r *Rand) {
+	n := r.Intn(5)
+	spare := r.Intn(4)
+	backing := make([]syntax.WordPart, n, n+spare)
+	others := map[syntax.WordPart]int{}
+	var toks []string
+	for i := 0; i < n; i++ {
+		if r.Chance(25) {
+			var p syntax.WordPart
+			if r.Bool() {
+				p = &syntax.SglQuoted{Value: "q"}
+			} else {
+				p = &syntax.ParamExp{Param: &syntax.Lit{Value: "x"}, Short: true}
+			}
+			others[p] = i + 1
+			backing[i] = p
+			toks = append(toks, fmt.Sprintf("o%d", i+1))
+		} else {
+			v := genFrom(r, c29LitAlphabet, 7)
+			backing[i] = &syntax.Lit{Value: v}
+			toks = append(toks, "l"+hx(v))
+		}
+	}
+	if n == 0 && spare == 0 {
+		backing = nil
+	}
+	orig := &syntax.Word{Parts: backing}
+	// what must not change: the header and every cell of the backing array, spare capacity included
+	full := backing[:cap(backing)]
+	before := append([]syntax.WordPart{}, full...)
+	hdrData, hdrLen, hdrCap := unsafe.SliceData(orig.Parts), len(orig.Parts), cap(orig.Parts)
+	litVals := map[*syntax.Lit]string{}
+	for _, p := range backing {
+		if l, ok := p.(*syntax.Lit); ok {
+			litVals[l] = l.Value
+		}
+	}
+
+	word := *orig // expand.FieldsSeq: `word := *word`
+	var res bool
+	pn := safely(func() { res = syntax.SplitBraces(&word) })
+	var ans string
+	if pn != "" {
+		ans = "panic"
+	} else {
+		same := unsafe.SliceData(orig.Parts) == hdrData && len(orig.Parts) == hdrLen && cap(orig.Parts) == hdrCap
+		for i := range full {
+			if full[i] != before[i] {
+				same = false
+			}
+		}
+		for l, v := range litVals {
+			if l.Value != v {
+				same = false
+			}
+		}
+		ans = b01(res) + " " + c29RenderWord(&word, others) + " orig=" + map[bool]string{true: "same", false: "changed"}[same]
+	}
+	line := fmt.Sprintf("sb %d %s", cap(backing), strings.Join(toks, " "))
+	line = strings.TrimRight(line, " ")
+	c.Op(line, ans)
+	// the property itself for this site, independent of the model
+	if pn == "" && !strings.HasSuffix(ans, "orig=same") {
+		c.Fail(line, "syntax.SplitBraces on a copied Word header changed the original header or its backing array")
+	}
+	// and through the public entry point: expand.Fields on the original word
+	if pn == "" {
+		cfg := &expand.Config{Env: expand.ListEnviron("x=v")}
+		safely(func() { expand.Fields(cfg, orig) })
+		same := unsafe.SliceData(orig.Parts) == hdrData && len(orig.Parts) == hdrLen && cap(orig.Parts) == hdrCap
+		for i := range full {
+			if full[i] != before[i] {
+				same = false
+			}
+		}
+		if !same {
+			c.Fail(line+" (expand.Fields)", "expand.Fields changed the word it was given")
+		}
+	}
+	c.Case(line, res, "tie:sb", fmt.Sprintf("sb:split=%v", res))
+}
+
+// ---- alias ---------------------------------------------------------------------------------------
+
+var c29AliasWords = []string{"a0", "a1", "a2", "a3", "x", "y", "z"} // ids 0..6; a0..a3 may be aliases
+
+func c29AliasCase(c *Ctx, r *Rand) {
+	nargs := 1 + r.Intn(4)
+	args := make([]int, nargs)
+	for i := range args {
+		args[i] = r.Intn(len(c29AliasWords))
+	}
+	args[0] = r.Intn(4) // start with a possible alias
+	type entry struct {
+		name  int
+		words []int
+		blank bool
+	}
+	var entries []entry
+	var src strings.Builder
+	src.WriteString("shopt -s expand_aliases\n")
+	var etoks []string
+	for name := 0; name < 4; name++ {
+		if !r.Chance(60) {
+			continue
+		}
+		e := entry{name: name, blank: r.Chance(55)}
+		for k := r.Intn(4); k > 0; k-- {
+			e.words = append(e.words, r.Intn(len(c29AliasWords)))
+		}
+		entries = append(entries, e)
+		var ws []string
+		for _, w := range e.words {
+			ws = append(ws, c29AliasWords[w])
+		}
+		val := strings.Join(ws, " ")
+		if e.blank {
+			val += " "
+		}
+		fmt.Fprintf(&src, "alias %s='%s'\n", c29AliasWords[name], val)
+		etoks = append(etoks, fmt.Sprintf("%d=%s:%s", name, joinInts(e.words), b01(e.blank)))
+	}
+	var aw []string
+	for _, a := range args {
+		aw = append(aw, c29AliasWords[a])
+	}
+	src.WriteString(strings.Join(aw, " ") + "\n")
+
+	file, err := syntax.NewParser().Parse(strings.NewReader(src.String()), "")
+	if err != nil {
+		panic("c29 alias: " + err.Error())
+	}
+	call := file.Stmts[len(file.Stmts)-1].Cmd.(*syntax.CallExpr)
+	argsBefore := append([]*syntax.Word{}, call.Args[:cap(call.Args)]...)
+	var got []string
+	called := false
+	mw := func(next interp.ExecHandlerFunc) interp.ExecHandlerFunc {
+		return func(ctx context.Context, a []string) error {
+			got = append([]string{}, a...)
+			called = true
+			return nil
+		}
+	}
+	runner, _ := interp.New(interp.StdIO(nil, io.Discard, io.Discard), interp.Env(expand.ListEnviron("PATH=/nonexistent")), interp.ExecHandlers(mw))
+	ctx, cancel := context.WithTimeout(context.Background(), 10*time.Second)
+	defer cancel()
+	pn := safely(func() { runner.Run(ctx, file) })
+	ans := "panic"
+	if pn == "" {
+		ids := []int{}
+		for _, w := range got {
+			for i, aw := range c29AliasWords {
+				if aw == w {
+					ids = append(ids, i)
+				}
+			}
+		}
+		same := true
+		for i, w := range call.Args[:cap(call.Args)] {
+			if w != argsBefore[i] {
+				same = false
+			}
+		}
+		_ = called
+		ans = "args=" + joinInts(ids) + " orig=" + map[bool]string{true: "same", false: "changed"}[same]
+	}
+	line := fmt.Sprintf("alias %d %s %s", cap(call.Args), joinInts(args), strings.Join(etoks, " "))
+	line = strings.TrimRight(line, " ")
+	c.Op(line, ans)
+	if pn == "" && !strings.HasSuffix(ans, "orig=same") {
+		c.Fail(line, "alias expansion wrote the argument slice of the CallExpr")
+	}
+	c.Case(line, len(got) != len(args) || len(entries) > 0, "tie:alias")
+}
+
+// ---- hdoc ---------------------------------------------------------------------------------------
+
+func c29HdocCase(c *Ctx, r *Rand) {
+	// parts alternate literal / parameter runs; the body ends with a literal ending in a newline
+	var toks []string
+	var body strings.Builder
+	var env []string
+	nparts := 1 + r.Intn(5)
+	tag := 0
+	lastLit := false
+	flushed := 0
+	for i := 0; i < nparts; i++ {
+		tag++
+		final := i == nparts-1
+		if lastLit || (!final && r.Chance(45)) { // two literals in a row would be one Lit for the parser
+			if final {
+				nparts++ // the body still has to end with a literal
+			}
+			fmt.Fprintf(&body, "${p%d}", tag)
+			env = append(env, fmt.Sprintf("p%d=P%d", tag, tag))
+			toks = append(toks, fmt.Sprintf("p%d", tag))
+			lastLit = false
+			continue
+		}
+		nseg := 1 + r.Intn(3)
+		if final && nseg < 2 {
+			nseg = 2
+		}
+		var segs, hsegs []string
+		for k := 0; k < nseg; k++ {
+			s := fmt.Sprintf("L%ds%d", tag, k)
+			if final && k == nseg-1 {
+				s = "" // the body's last newline
+			}
+			segs = append(segs, strings.Repeat("\t", r.Intn(3))+s)
+			hsegs = append(hsegs, hx(s))
+		}
+		// a literal directly after a parameter must not start with a name character… it starts with L or a tab: use ${}
+		body.WriteString(strings.Join(segs, "\n"))
+		toks = append(toks, fmt.Sprintf("l%d:%s", tag, strings.Join(hsegs, ";")))
+		flushed += nseg - 1
+		lastLit = true
+	}
+	src := "cat <<-EOF\n" + body.String() + "EOF\n"
+	file, err := syntax.NewParser().Parse(strings.NewReader(src), "")
+	if err != nil {
+		panic("c29 hdoc: " + err.Error() + "\n" + src)
+	}
+	var out bytes.Buffer
+	runner, _ := interp.New(interp.StdIO(nil, &out, io.Discard), interp.Env(expand.ListEnviron(env...)), interp.ExecHandlers(c29ExecHandler))
+	ctx, cancel := context.WithTimeout(context.Background(), 10*time.Second)
+	defer cancel()
+	rd := file.Stmts[0].Redirs[0]
+	partsBefore := append([]syntax.WordPart{}, rd.Hdoc.Parts[:cap(rd.Hdoc.Parts)]...)
+	pn := safely(func() { runner.Run(ctx, file) })
+	if ctx.Err() != nil {
+		c.Case("", false, "tie:hdoc-timeout")
+		return
+	}
+	ans := "panic"
+	if pn == "" {
+		ans = "out=" + hx(out.String())
+	}
+	line := "hdoc " + strings.Join(toks, " ")
+	c.Op(line, ans)
+	for i, p := range rd.Hdoc.Parts[:cap(rd.Hdoc.Parts)] {
+		if p != partsBefore[i] {
+			c.Fail(line, "the <<- splitter wrote the Parts slice of the here-document word")
+		}
+	}
+	c.Case(line, flushed > 0, "tie:hdoc")
+}
+
+// ---- selftest ------------------------------------------------------------------------------------
+
+// c29SelfTest checks that the detector of the search leg sees the kinds of write it is there for.
+func c29SelfTest(c *Ctx) {
+	parse := func() *syntax.File {
+		f, err := syntax.NewParser().Parse(strings.NewReader("echo a b c; x=1 y=2 foo {a,b}"), "")
+		if err != nil {
+			panic(err)
+		}
+		return f
+	}
+	det := func(d string) string {
+		if d != "" {
+			return "detected"
+		}
+		return "missed"
+	}
+	var res []string
+	// 1. a write into the spare capacity of a slice of the tree
+	{
+		f := parse()
+		call := f.Stmts[0].Cmd.(*syntax.CallExpr)
+		args := make([]*syntax.Word, len(call.Args), len(call.Args)+2)
+		copy(args, call.Args)
+		call.Args = args
+		s0 := c29Observe(f)
+		_ = append(call.Args, call.Args[0]) // in place: lands in the spare capacity
+		res = append(res, "spare-capacity="+det(c29TreeDiff(s0, c29Observe(f))))
+	}
+	// 2. a node replaced by an equal copy
+	{
+		f := parse()
+		call := f.Stmts[0].Cmd.(*syntax.CallExpr)
+		s0 := c29Observe(f)
+		cp := *call.Args[1]
+		call.Args[1] = &cp
+		res = append(res, "pointer-swap="+det(c29TreeDiff(s0, c29Observe(f))))
+	}
+	// 3. an in-place write of an array held by the Environ, beyond its length
+	{
+		e := c29NewEnv("/d", "/s", true)
+		s0 := c29EnvState(e)
+		l := e.vars["ea"].List
+		_ = append(l, "Q")
+		res = append(res, "env-array="+det(c29SnapDiff(s0, c29EnvState(e))))
+	}
+	// 4. a Set on the Environ
+	{
+		e := c29NewEnv("/d", "/s", true)
+		c29WEnv{e}.Set("x", expand.Variable{})
+		d := ""
+		if len(e.sets) > 0 {
+			d = "set"
+		}
+		res = append(res, "env-set="+det(d))
+	}
+	// 5. no false alarm: observing twice gives the same
+	{
+		f := parse()
+		if d := c29TreeDiff(c29Observe(f), c29Observe(f)); d == "" {
+			res = append(res, "unchanged=same")
+		} else {
+			res = append(res, "unchanged=differs:"+strings.ReplaceAll(d, " ", "_"))
+		}
+	}
+	c.Op("selftest", strings.Join(res, " "))
 }
